@@ -42,31 +42,39 @@ Proof. exact index_find_total. Qed.
 
 (* (2) For a table built by inserting distinct non-zero ids along the probe sequence
    h1 = id & mask, step h2 = ((id >> 32) & mask) | 1 (any number of insertions: every load factor, the
-   completely full table included; colliding hashes allowed), find returns row exactly for the entries of the
-   table, and None for every other non-zero id. *)
+   completely full table included; colliding hashes allowed), and for EVERY id — 0 included — find returns
+   row exactly for the entries (used slots) of the table. Id 0 is the unused-slot marker: it is never an
+   entry and never found (gimli 8339644; before that repair find(0) returned Some(0), see known_findings). *)
 Theorem index_find_correct : forall (dbg be : bool) (k : N) (t : table) (ix : unit_index) (id row : N),
   k < 32 -> built (2 ^ k) t ->
   ix_slot_count ix = 2 ^ k ->
   ix_hash_ids ix = enc_words 8 be (map fst t) -> ix_hash_rows ix = enc_words 4 be (map snd t) ->
-  id <> 0 ->
-  (index_find dbg be ix id = Ok (Some row) <-> In (id, row) t).
+  (index_find dbg be ix id = Ok (Some row) <-> In (id, row) (contents t)).
 Proof.
-  intros dbg be k t ix id row Hk Hb Hs Hi Hr Hid.
+  intros dbg be k t ix id row Hk Hb Hs Hi Hr.
   destruct (built_inv _ _ Hb) as (Hl & Hp & Hrg).
-  exact (find_correct dbg be k t ix Hk Hl Hrg Hs Hi Hr id row Hp Hid).
+  rewrite contents_spec. cbn [fst].
+  destruct (N.eq_dec id 0) as [->|Hid].
+  - rewrite index_find_zero. split; [discriminate|]. intros [_ H]. congruence.
+  - rewrite (find_correct dbg be k t ix Hk Hl Hrg Hs Hi Hr id row Hp Hid). tauto.
 Qed.
 
 Theorem index_find_absent : forall (dbg be : bool) (k : N) (t : table) (ix : unit_index) (id : N),
   k < 32 -> built (2 ^ k) t ->
   ix_slot_count ix = 2 ^ k ->
   ix_hash_ids ix = enc_words 8 be (map fst t) -> ix_hash_rows ix = enc_words 4 be (map snd t) ->
-  id <> 0 -> (forall row, ~ In (id, row) t) ->
+  (forall row, ~ In (id, row) (contents t)) ->
   index_find dbg be ix id = Ok None.
 Proof.
-  intros dbg be k t ix id Hk Hb Hs Hi Hr Hid Habs.
+  intros dbg be k t ix id Hk Hb Hs Hi Hr Habs.
+  destruct (N.eq_dec id 0) as [->|Hid]; [apply index_find_zero|].
   destruct (built_inv _ _ Hb) as (Hl & Hp & Hrg).
-  exact (find_absent dbg be k t ix Hk Hl Hrg Hs Hi Hr id Hid Habs).
+  apply (find_absent dbg be k t ix Hk Hl Hrg Hs Hi Hr id Hid).
+  intros row Hin. apply (Habs row). apply contents_spec. split; [exact Hin|exact Hid].
 Qed.
+
+Theorem index_find_zero_none : forall (dbg be : bool) (ix : unit_index), index_find dbg be ix 0 = Ok None.
+Proof. exact index_find_zero. Qed.
 
 (* the executable construction used by the generators produces `built` tables *)
 Theorem insert_all_is_built : forall (slots : N) (es : list (N * N)) (t : table),
@@ -100,18 +108,10 @@ Example ex_find_slot0 : index_find true true {| ix_version := 2; ix_section_coun
   = Ok None.
 Proof. reflexivity. Qed.
 
-(* KNOWN FINDING (known_findings.txt, proposed_fixes/index_find_zero_id.diff): the hypothesis id <> 0 of
-   index_find_correct cannot be dropped. Id 0 is the unused-slot marker, so it is never an entry, yet find
-   reports it as found (with the invalid row 0) as soon as its probe sequence meets an unused slot. *)
-Theorem index_find_zero_refuted :
-  exists (k : N) (t : table) (ix : unit_index),
-    built (2 ^ k) t /\ ix_slot_count ix = 2 ^ k /\
-    ix_hash_ids ix = enc_words 8 true (map fst t) /\ ix_hash_rows ix = enc_words 4 true (map snd t) /\
-    (forall row, ~ In (0, row) (contents t)) /\ index_find true true ix 0 = Ok (Some 0).
-Proof.
-  exists 2, ex_table, (ex_index true). split; [exact ex_table_built|]. repeat split.
-  intros row H. apply contents_spec in H. destruct H as [_ H]. apply H. reflexivity.
-Qed.
+(* the repaired behaviour on the example table, whose slot 0 is unused: id 0 is not found (before gimli
+   8339644 this call returned Ok (Some 0)) *)
+Example ex_find_0 : index_find true true (ex_index true) 0 = Ok None.
+Proof. reflexivity. Qed.
 
 (* every load factor is reachable: while a slot of a 2^k-slot table is unused, inserting any id succeeds,
    because the step is odd and so the probe sequence visits every slot *)
@@ -168,11 +168,11 @@ Proof. exact IndexRdProofs.index_parse_encoded. Qed.
 
 (* end to end: bytes -> parse -> find = contents of the table that was encoded *)
 Theorem index_lookup_encoded : forall (dbg be : bool) (k : N) (d : index_desc) (trailing : list byte) (id row : N),
-  desc_wf d -> k < 32 -> N.of_nat (length (d_slots d)) = 2 ^ k -> built (2 ^ k) (d_slots d) -> id <> 0 ->
+  desc_wf d -> k < 32 -> N.of_nat (length (d_slots d)) = 2 ^ k -> built (2 ^ k) (d_slots d) ->
   exists ix, index_parse dbg be (enc_index be d ++ trailing) = Ok ix /\
-             (index_find dbg be ix id = Ok (Some row) <-> In (id, row) (d_slots d)).
+             (index_find dbg be ix id = Ok (Some row) <-> In (id, row) (contents (d_slots d))).
 Proof.
-  intros dbg be k d trailing id row Hwf Hk Hs Hb Hid. exists (index_of_desc be d).
+  intros dbg be k d trailing id row Hwf Hk Hs Hb. exists (index_of_desc be d).
   split; [apply IndexRdProofs.index_parse_encoded; exact Hwf|].
   apply (index_find_correct dbg be k (d_slots d)); try assumption; reflexivity.
 Qed.
@@ -525,6 +525,6 @@ Check index_find_terminates. Check index_parse_no_panic. Check index_find_correc
 Check index_sections_rows. Check index_column_kinds. Check index_parse_encoded. Check index_lookup_encoded.
 Check names_by_bucket. Check names_by_hash. Check positions_is_scan. Check names_bucket_terminates.
 Check names_no_hash_table. Check names_layout. Check names_header. Check names_lookup_encoded.
-Check names_type_unit_split. Check names_abbrevs. Check names_entry. Check names_entry_series. Check index_find_zero_refuted. Check insert_reaches_every_load. Check names_type_unit_count. Check djb_hash.
+Check names_type_unit_split. Check names_abbrevs. Check names_entry. Check names_entry_series. Check index_find_zero_none. Check insert_reaches_every_load. Check names_type_unit_count. Check djb_hash.
 Check aranges_padding. Check aranges_header. Check aranges_entries. Check aranges_no_panic.
 Check pubstuff. Check pubstuff_no_panic.
